@@ -23,7 +23,9 @@ What a schema constructor stands for (Rust side → JSON side):
 * `untagged alts` (`#[serde(untagged)]`, also used for "unit variants + one `#[serde(untagged)]` catch-all variant":
   the alternatives are tried in order when reading);
 * `adjacent tag content alts` (`#[serde(tag = t, content = c)]`, newtype variants);
-* `internal tag alts` (`#[serde(tag = t)]`, struct variants: every alternative is a closed `struct`).
+* `internal tag alts` (`#[serde(tag = t)]`, struct variants: every alternative is a closed `struct`);
+* `refine s p` (`#[serde(try_from = "Unchecked…")]`: read as `s`, then a validation `p` of the parsed text's fields may
+  reject; written as `s`).
 Transparent / newtype structs are the schema of their inner type.  Names are the *serialized* names (the translator
 applies `rename_all` / `rename`).
 -/
@@ -53,6 +55,7 @@ inductive Schema where
   | untagged (alts : Fields)
   | adjacent (tag content : String) (alts : Fields)
   | internal (tag : String) (alts : Fields)
+  | refine (s : Schema) (p : Json → Bool)
 inductive Fields where
   | nil
   | cons (name : String) (kind : FKind) (s : Schema) (tl : Fields)
@@ -142,6 +145,7 @@ def shape : Schema → List Nat
   | .map => [6] | .struct _ _ => [6] | .adjacent _ _ _ => [6] | .internal _ _ => [6]
   | .unitEnum _ => [4]
   | .untagged alts => shapeAlts alts
+  | .refine s _ => shape s
 def shapeAlts : Fields → List Nat
   | .nil => []
   | .cons _ _ s tl => shape s ++ shapeAlts tl
@@ -179,6 +183,7 @@ def ser : Schema → Val → Json
       (match v with | .var i x => .obj [(t, .str (altName alts i)), (c, serAlt alts i x)] | _ => .null)
   | .internal t alts, v =>
       (match v with | .var i x => .obj ((t, .str (altName alts i)) :: objKvs (serAlt alts i x)) | _ => .null)
+  | .refine s _, v => ser s v
 def serFields : Fields → List Val → Kvs
   | .nil, _ => []
   | .cons name kind s tl, vs =>
@@ -244,6 +249,7 @@ def de : Schema → Json → Option Val
               | some (.str n) => deByName alts n (.obj kvs) 0
               | _ => none)
         | _ => none)
+  | .refine s p, j => if p j then de s j else none
 def deFields : Fields → Kvs → Option (List Val)
   | .nil, _ => some []
   | .cons name kind s tl, o =>
@@ -295,6 +301,7 @@ def hasType : Schema → Val → Bool
   | .untagged alts, v => (match v with | .var i x => typedAlt alts i x && earlierReject alts i (serAlt alts i x) | _ => false)
   | .adjacent _ _ alts, v => (match v with | .var i x => typedAlt alts i x | _ => false)
   | .internal _ alts, v => (match v with | .var i x => typedAlt alts i x | _ => false)
+  | .refine s p, v => hasType s v && p (ser s v)
 def typedFields : Fields → List Val → Bool
   | .nil, vs => vs.isEmpty
   | .cons _ kind s tl, vs =>
@@ -339,6 +346,7 @@ def wf : Schema → Bool
   | .untagged alts => wfAlts alts
   | .adjacent t c alts => decide (t ≠ c) && wfAlts alts && decide (altNames alts).Nodup
   | .internal t alts => wfAlts alts && wfInternal t alts && decide (altNames alts).Nodup
+  | .refine s _ => wf s
 def wfFields : Fields → Bool
   | .nil => true
   | .cons _ kind s tl => wf s && kindOk kind s && wfFields tl
@@ -365,6 +373,7 @@ def strict : Schema → Bool
   | .untagged alts => strictFields alts && wfDisjoint alts
   | .adjacent _ _ alts => strictFields alts
   | .internal _ alts => strictFields alts
+  | .refine s _ => strict s
   | _ => true
 def strictFields : Fields → Bool
   | .nil => true
